@@ -62,6 +62,10 @@ def scenarios():
     sc.append({"name": "includes-seq", "tasks": [T("i0", "run_experiment"), T("i1", deps=["i0"], pkg="a"), T("i2", "run_experiment", deps=["//a:i1"])],
                "extra_files": {"defs.cond": inc, "a/local.cond": inc}, "cond_prefix": {"": "include('//defs.cond')\ninclude('defs.cond')\n", "a": "include('local.cond')\ninclude('//defs.cond')\n"},
                "pre": [], "inv": {"target": "//:i2", "jobs": None, "strategy": "blocked-fifo", "seed": 19}})
+    # one of the running tasks has switched to another user: signalling its process group is refused (EPERM); the
+    # others must still be terminated
+    sc.append({"name": "par-fan-j3-one-task-of-another-user", "tasks": fan + [gen.mk_task("", "top", "combine", [t["id"] for t in fan])],
+               "pre": [], "inv": {"target": "//:top", "jobs": 3, "strategy": "blocked-fifo", "seed": 20, "script": {fan[0]["id"]: {"other_user": True}, fan[3]["id"]: {"other_user": True}}}})
     sc.append({"name": "stdout-gone-j3", "tasks": fan + [gen.mk_task("", "top", "group", [t["id"] for t in fan])], "break_stdout": True,
                "pre": [], "inv": {"target": "//:top", "jobs": 3, "strategy": "blocked-random", "seed": 13}})
     sc.append({"name": "par-fan-j3-exits-while-aborting", "tasks": fan + [gen.mk_task("", "top", "combine", [t["id"] for t in fan])], "exits_after": 0.6,
@@ -176,7 +180,7 @@ def inject_case(arg):
             return out
         for p in res["procs"]:
             out["reach"]["c16_child_checks"] = out["reach"].get("c16_child_checks", 0) + 1
-            if p["state"] == "running" and 15 not in p["signals"]:
+            if p["state"] == "running" and 15 not in p["signals"] and not (inv.get("script", {}).get(p["task"], {}).get("other_user")):
                 out["violations"].append({"key": "C16:running-task-not-sent-SIGTERM", "msg": "%s at %s (%s): %s (pid %d) was started, is still running when cond returns and was never sent SIGTERM" % (sig, inj["site"], inj.get("func"), p["task"], p["pid"]), "witness": W})
                 return out
         if isinstance(res["rows"], list):
